@@ -96,7 +96,7 @@ def prop(pid, rules, explanation, decides, does_not_decide, **kw):
 RUNTIME = "run-time equalities over all inputs (round trips, byte equality with independent codecs) — quantify over values; only the named structural necessary conditions are decided"
 
 prop("C01", [rw.r_layout_w, rw.r_fieldmap_w, rr.r_fieldmap_r, rr.r_addr_open, rr.r_exact_tile, rh.r_round, st.r_hashid, st.r_finish_pair, st.r_rle_dep, st.r_order,
-              rs.r_budget, rs.r_leafptr, rs.r_reseek, rd.r_cols_reader, rd.r_cols_writer, rr.r_walk, rr.r_meta0, rh.r_hdr_io, st.r_add_pair, st.r_remove_guard, st.r_lookup, rt.r_factory, rr.r_bounded_read, rr.r_seek_after_codec, st.r_add_offset],
+              rs.r_budget, rs.r_leafptr, rs.r_reseek, rd.r_cols_reader, rd.r_cols_writer, rr.r_walk, rr.r_meta0, rh.r_hdr_io, st.r_add_pair, st.r_remove_guard, st.r_lookup, rt.r_factory, rr.r_bounded_read, rr.r_seek_after_codec, st.r_add_offset, rt.r_finalise_async],
      "Necessary conditions of the write→read round trip, decided on both twins: header settings are paired field by field in writer and opener (R-FIELDMAP), section "
      "offsets/lengths equal the measured writes (R-LAYOUT-W, affine stream model), the opener rebases entry offsets by tile_data_offset and the lookup reads exactly "
      "(offset,length) (R-ADDR/R-EXACT-TILE), coordinates are rounded to nearest (R-ROUND), contents are laid out once with offsets read before the append "
@@ -105,7 +105,7 @@ prop("C01", [rw.r_layout_w, rw.r_fieldmap_w, rr.r_fieldmap_r, rr.r_addr_open, rr
      ["R-FIELDMAP", "R-LAYOUT-W", "R-REL", "R-ADDR", "R-EXACT-TILE", "R-ROUND", "R-FINISH-PAIR", "R-COUNTERS", "R-HASHID", "R-COLS", "R-DELTA", "R-OFFRULE", "R-LEAFPTR", "R-BUDGET", "R-RESEEK", "R-WALK", "R-META0", "R-RLE-DEP", "R-ORDER", "R-HDR-IO"],
      [RUNTIME, "metadata equality through serde_json", "contents larger than 4 GiB"])
 
-prop("C02", [rh.r_hdr_layout, rw.r_hdr_const, rw.r_layout_w, rs.r_budget, rs.r_leafptr, rs.r_reseek, st.r_finish_pair, st.r_rle_dep, rw.r_fieldmap_w, st.r_order, st.r_clustered, rd.r_cols_writer, rc.r_cfg_jsonorder, rh.r_hdr_io, rt.r_factory],
+prop("C02", [rh.r_hdr_layout, rw.r_hdr_const, rw.r_layout_w, rs.r_budget, rs.r_leafptr, rs.r_reseek, st.r_finish_pair, st.r_rle_dep, rw.r_fieldmap_w, st.r_order, st.r_clustered, rd.r_cols_writer, rc.r_cfg_jsonorder, rh.r_hdr_io, rt.r_factory, rt.r_finalise_async],
      "Static agreement of the writer with the v3 specification table (/verif/spec/v3.json, transcribed from the spec): derived header byte layout and enum codes "
      "(R-HDR-LAYOUT), spec_version 3, sections laid out back to back after the header with offsets equal to the measured positions, root directory ≤ 16 257 bytes, "
      "counters computed once per entry/content and passed name for name, clustered=true backed by an ascending sort before layout, directory columns in spec order.",
@@ -126,14 +126,14 @@ prop("C04", [st.r_hashid, st.r_add_pair, st.r_remove_guard, st.r_lookup, st.r_re
      ["R-ADD-PAIR", "R-REMOVE-GUARD", "R-LOOKUP", "R-REJ-EMPTY", "R-HASHID"],
      ["the representation invariant over arbitrary edit histories (inductive argument over three hash maps is out of reach)", "listing/count agreement over histories"])
 
-prop("C05", [rd.r_cols_reader, rd.r_cols_writer, rd.r_len0_err, rd.r_dir_twins],
+prop("C05", [rd.r_cols_reader, rd.r_cols_writer, rd.r_len0_err, rd.r_dir_twins, rt.r_finalise_async],
      "Decoder and encoder (sync and async twins) are compared with the spec's column table: count first, then one pass per column in the order id, run length, length, "
      "offset with integer types u64/u32/u32/u64, all through one codec handle; ids are delta coded from 0; the offset rule's condition and both arms are affine-exact in "
      "both directions; zero lengths are refused before being stored/emitted.",
      ["R-COLS", "R-DELTA", "R-OFFRULE", "R-LEN0"],
      [RUNTIME, "codec round trips (library behaviour)"])
 
-prop("C06", [rs.r_budget, rs.r_leafptr, rs.r_reseek, rw.r_layout_w, rd.r_cols_writer, rd.r_cols_reader, rr.r_walk],
+prop("C06", [rs.r_budget, rs.r_leafptr, rs.r_reseek, rw.r_layout_w, rd.r_cols_writer, rd.r_cols_reader, rr.r_walk, rt.r_finalise_async],
      "The root writers are analysed with the stream-position model: every Ok exit is dominated by a comparison of the *measured* root length against exactly 16 257 "
      "(spill: at most), the fitting case returns an empty leaf section, leaf pointers carry chunk[0].tile_id / cursor position before the leaf write / bytes written / "
      "run_length 0, each retry re-seeks to the remembered start and grows the leaf size, and the archive writer places the returned leaf bytes after the metadata.",
@@ -174,7 +174,7 @@ prop("C11", [tt.r_range_end, tt.r_leaf_skip_and_filter, tt.r_partial_same, rr.r_
      ["R-RANGE-END", "R-FILTER-GUARD", "R-LEAF-SKIP", "R-PARTIAL-SAME"],
      [RUNTIME])
 
-prop("C12", [rt.r_twin, rt.r_factory, rd.r_dir_twins, rr.r_seek_after_codec],
+prop("C12", [rt.r_twin, rt.r_factory, rd.r_dir_twins, rr.r_seek_after_codec, rt.r_finalise_async],
      "Sibling agreement on code the test suite never compiles: every sync/async pair instantiated from one duplicate_item template must be isomorphic after making "
      "`?`, .await and async blocks transparent and mapping callees through the twin table (Read↔AsyncReadExt, flush↔close for codec writers, read_varint↔_async, local "
      "f↔f_async; integer type arguments must agree); hand-written pairs must have the same stream-effect/parser skeleton; the four codec factories must agree per variant.",
